@@ -20,7 +20,7 @@ import random
 import numpy as np
 
 from . import meshgen as mg
-from .common import grid_of, result
+from .common import FILL, grid_of, result, ux
 
 KINDS = ("nodes", "edge centers", "face centers")
 CONFIGS = {
@@ -456,6 +456,21 @@ def neighbours(tier, seed):
                     keys.add((m["name"], kind, tree, system, metric))
         if len(samples) < 3:
             samples.append({"mesh": m["name"], "queries_lonlat_deg": qs[:5]})
+    # node coordinates stored as INTEGER arrays (whole degrees): the Grid keeps the dtype it was given, the trees must not
+    im = mg.quad_patch(3, 2, lon0=170.0, lat0=-10.0, d=10.0, name="quads3x2_integer_coordinates")
+    els = _elements(im)
+    gi = ux.Grid.from_topology(node_lon=np.array(np.round(im["lon"]), dtype=np.int64), node_lat=np.array(np.round(im["lat"]), dtype=np.int64),
+                               face_node_connectivity=np.array(im["faces"]), fill_value=FILL)
+    for kind in KINDS:
+        if kind not in els:
+            continue
+        qs = _queries(im, els, kind, rng, 3)
+        for tree in ("ball", "kd"):
+            for (system, metric) in CONFIGS[tree][:2]:
+                c, f = _run_config(gi, tree, kind, system, metric, els[kind], qs, im["name"], rng, False)
+                cases += c
+                fails += f
+                keys.add((im["name"], kind, tree, system, metric))
     # histories on two small meshes
     hm = [meshes[0], meshes[3]] if tier == "quick" else [meshes[0], meshes[3], meshes[5]]
     n_hist = 0
